@@ -428,7 +428,7 @@ impl<P: RuntimeProvider + Send + Sync> SqliteZoneHandler<P> {
 
             match require.dns_class {
                 DNSClass::ANY => {
-                    if let RData::Update0(_) | RData::NULL(..) = require.data {
+                    if is_empty_rdata(&require.data) {
                         match require.record_type() {
                             // ANY      ANY      empty    Name is in use
                             RecordType::ANY => {
@@ -467,7 +467,7 @@ impl<P: RuntimeProvider + Send + Sync> SqliteZoneHandler<P> {
                     }
                 }
                 DNSClass::NONE => {
-                    if let RData::Update0(_) | RData::NULL(..) = require.data {
+                    if is_empty_rdata(&require.data) {
                         match require.record_type() {
                             // NONE     ANY      empty    Name is not in use
                             RecordType::ANY => {
@@ -683,9 +683,8 @@ impl<P: RuntimeProvider + Send + Sync> SqliteZoneHandler<P> {
                             return Err(ResponseCode::FormErr);
                         }
 
-                        match rr.data {
-                            RData::Update0(_) | RData::NULL(..) => {}
-                            _ => return Err(ResponseCode::FormErr),
+                        if !is_empty_rdata(&rr.data) {
+                            return Err(ResponseCode::FormErr);
                         }
 
                         match rr.record_type() {
@@ -883,7 +882,7 @@ impl<P: RuntimeProvider + Send + Sync> SqliteZoneHandler<P> {
                             //   SOA or NS RRs will be deleted.
 
                             // ANY      rrset    empty    Delete an RRset
-                            if let RData::Update0(_) | RData::NULL(..) = rr.data {
+                            if is_empty_rdata(&rr.data) {
                                 let deleted = self.in_memory.records_mut().await.remove(&rr_key);
                                 info!("deleted rrset: {deleted:?}");
                                 updated = updated || deleted.is_some();
@@ -1024,6 +1023,15 @@ impl<P: RuntimeProvider + Send + Sync> SqliteZoneHandler<P> {
             response,
             TSigResponseContext::new(req_id, now, tsigner.clone(), tsig.data.mac.clone(), error),
         )
+    }
+}
+
+/// RFC 2136 "empty" RDATA: RDLENGTH 0 (a NULL record may also carry data)
+fn is_empty_rdata(data: &RData) -> bool {
+    match data {
+        RData::Update0(_) => true,
+        RData::NULL(null) => null.anything.is_empty(),
+        _ => false,
     }
 }
 
